@@ -144,6 +144,7 @@ void node_use(uint32_t vid, bool moved_from);                 // value handed to
 void node_assign_over(const void* addr, uint32_t old_vid, bool held_value);
 void trivial_copy();                                          // a copy of the trivially destructible value type was made
 void node_lvalue_arg(uint32_t vid);
+void node_read(uint32_t vid);                                  // the object is read (not consumed): it must be alive
 int64_t copies_so_far();
 void own_copies(int delta);
 void functor_owner(int owner);                                  // a rule functor object reports which parser object it belongs to
